@@ -90,7 +90,8 @@ def main():
     prop, t0 = a.prop, time.time()
     if prop not in PROP_UNITS:
         print('UNDECIDED property=%s is not claimed (see MANIFEST.json not_applicable)' % prop); sys.exit(2)
-    spec_dir, build_dir = os.path.join(ROOT, 'spec'), os.path.join(ROOT, 'build')
+    # one build directory per property: checks of different properties may run concurrently and share units
+    spec_dir, build_dir = os.path.join(ROOT, 'spec'), os.path.join(ROOT, 'build', prop)
     os.makedirs(build_dir, exist_ok=True); os.makedirs(a.out, exist_ok=True); os.makedirs(os.path.join(ROOT, 'replay_out'), exist_ok=True)
     kf = [k for k in known_findings() if k.get('property') == prop]
     units = PROP_UNITS[prop]
@@ -101,7 +102,7 @@ def main():
         # property-specific engines that run next to Verus (Kani look-ups for C09)
         if prop == 'C09':
             from vx import kani
-            extra['kani'] = ex.submit(kani.run, a.repo, a.tier, build_dir)
+            extra['kani'] = ex.submit(kani.run, a.repo, a.tier, os.path.join(ROOT, 'build'))
         res = [f.result() for f in futs]
         extra = {k: f.result() for k, f in extra.items()}
     main_res = {r['unit']: r for r, j in zip(res, jobs) if not j[1]}
